@@ -53,6 +53,9 @@
 #include <cstdlib>
 #include <algorithm>
 #include <execinfo.h>
+#include <csignal>
+#include <ucontext.h>
+#include <unistd.h>
 #include <dlfcn.h>
 #include <cxxabi.h>
 
@@ -1314,7 +1317,77 @@ static void doRef(const std::string& id, const KV& kv) {
     outLine("end " + id);
 }
 
+// a crash inside the library (typically the second destructor run of a doubly deleted object): print where, flush, leave
+static std::string symStack(int skip) {
+    void* fr[32];
+    int n = backtrace(fr, 32);
+    std::string s;
+    int shown = 0;
+    for (int i = skip; i < n && shown < 12; i++) {
+        Dl_info info;
+        if (dladdr(fr[i], &info) && info.dli_sname) {
+            int st = 0;
+            char* dm = abi::__cxa_demangle(info.dli_sname, 0, 0, &st);
+            std::string nm = (st == 0 && dm) ? dm : info.dli_sname;
+            free(dm);
+            size_t par = nm.find('(');
+            if (par != std::string::npos) nm = nm.substr(0, par);
+            for (size_t k = 0; k < nm.size(); k++) if (nm[k] == ' ') nm[k] = '_';
+            s += " <" + nm;
+            shown++;
+        }
+    }
+    return s;
+}
+static std::string symOf(void* a) {
+    Dl_info info;
+    if (a && dladdr(a, &info) && info.dli_sname) {
+        int st = 0;
+        char* dm = abi::__cxa_demangle(info.dli_sname, 0, 0, &st);
+        std::string nm = (st == 0 && dm) ? dm : info.dli_sname;
+        free(dm);
+        size_t par = nm.find('(');
+        if (par != std::string::npos) nm = nm.substr(0, par);
+        for (size_t k = 0; k < nm.size(); k++) if (nm[k] == ' ') nm[k] = '_';
+        return nm;
+    }
+    return "";
+}
+static void onCrash(int sig, siginfo_t*, void* uctx) {
+    signal(sig, SIG_DFL);
+    std::string s = "bt crash-signal-" + std::to_string(sig);
+#if defined(__x86_64__)
+    // a call through a null / stale vtable slot leaves pc = 0: the caller is the return address on top of the stack; after that
+    // scan the stack for further return addresses into named functions (imprecise but names the path of the second delete)
+    ucontext_t* uc = (ucontext_t*)uctx;
+    void* pc = (void*)uc->uc_mcontext.gregs[REG_RIP];
+    void** sp = (void**)uc->uc_mcontext.gregs[REG_RSP];
+    std::string nm = symOf(pc);
+    if (!nm.empty()) s += " <" + nm;
+    int shown = 0;
+    std::string last;
+    for (int i = 0; i < 400 && shown < 10; i++) {
+        nm = symOf(sp[i]);
+        if (!nm.empty() && nm != last && nm.find("xercesc") != std::string::npos) { s += " <" + nm; last = nm; shown++; }
+    }
+#else
+    s += symStack(2);
+#endif
+    gOut += s + "\n";
+    flushOut();
+    fflush(stdout);
+    _exit(128 + sig);
+}
+
 int main() {
+    {
+        static char altstack[1 << 16];
+        stack_t ss; ss.ss_sp = altstack; ss.ss_size = sizeof altstack; ss.ss_flags = 0;
+        sigaltstack(&ss, 0);
+        struct sigaction sa; memset(&sa, 0, sizeof sa);
+        sa.sa_sigaction = onCrash; sa.sa_flags = SA_SIGINFO | SA_ONSTACK;
+        sigaction(SIGSEGV, &sa, 0); sigaction(SIGABRT, &sa, 0); sigaction(SIGBUS, &sa, 0);
+    }
     std::string line;
     while (std::getline(std::cin, line)) {
         std::vector<std::string> a = splitWs(line);
